@@ -243,3 +243,88 @@ func errCmpNil(c ssa.Value) (ssa.Value, bool, bool) {
 	}
 	return x, bo.Op == token.NEQ, true
 }
+
+// dataDeps returns the parameters of the enclosing function that v is computed from: a backward
+// data slice through every operand (a call result depends on its receiver and all arguments), loads
+// of local cells (the whole-cell stores that reach the load, plus stores to parts of the cell from
+// which the load can be reached), field and element addresses. Control dependence is not followed.
+func dataDeps(v ssa.Value) map[*ssa.Parameter]bool {
+	out := map[*ssa.Parameter]bool{}
+	seen := map[ssa.Value]bool{}
+	var walk func(x ssa.Value)
+	cellDefs := func(at ssa.Instruction, a *ssa.Alloc) {
+		for _, st := range core.ReachingStores(at, a) {
+			walk(st.Val)
+		}
+		if refs := a.Referrers(); refs != nil {
+			for _, rf := range *refs {
+				var addr ssa.Value
+				switch x := rf.(type) {
+				case *ssa.FieldAddr:
+					addr = x
+				case *ssa.IndexAddr:
+					addr = x
+				default:
+					continue
+				}
+				if ar := addr.Referrers(); ar != nil {
+					for _, u := range *ar {
+						st, ok := u.(*ssa.Store)
+						if !ok || st.Addr != addr {
+							continue
+						}
+						if st.Block() == at.Block() && core.InstrIndex(st) < core.InstrIndex(at) || (core.Reach{}).FromInstr(st)[at] {
+							walk(st.Val)
+						}
+					}
+				}
+			}
+		}
+	}
+	walk = func(x ssa.Value) {
+		if x == nil || seen[x] || len(seen) > 6000 {
+			return
+		}
+		seen[x] = true
+		switch t := x.(type) {
+		case *ssa.Parameter:
+			out[t] = true
+			return
+		case *ssa.UnOp:
+			if t.Op == token.MUL {
+				base := t.X
+				for {
+					if fa, ok := base.(*ssa.FieldAddr); ok {
+						base = fa.X
+					} else if ia, ok := base.(*ssa.IndexAddr); ok {
+						walk(ia.Index)
+						base = ia.X
+					} else {
+						break
+					}
+				}
+				if a, ok := base.(*ssa.Alloc); ok {
+					cellDefs(t, a)
+					return
+				}
+			}
+		case *ssa.Alloc:
+			// address of a cell used as a value (&x passed to a call): every store
+			for _, st := range core.StoresToCell(t) {
+				walk(st.Val)
+			}
+			return
+		}
+		in, ok := x.(ssa.Instruction)
+		if !ok {
+			return
+		}
+		for _, op := range in.Operands(nil) {
+			if op != nil && *op != nil {
+				walk(*op)
+			}
+		}
+	}
+	walk(v)
+	return out
+}
